@@ -16,7 +16,10 @@ quit after its j-th guess); the model's interrupted output, saved
 max_probability / omen_guess_number / .omn and the resumed session's whole output
 sequence and pop sequence are compared with what the real sessions did.  The
 model's queue follows the implementation's order inside groups of equal
-probability (pop_follow, proved to meet the heap contract for every order)."""
+probability (pop_follow, proved to meet the heap contract for every order); items
+are matched by (base-structure line, pt, base_prob, prob) - the line is followed
+in the implementation by object identity (see run_session), because two
+identical grammar.txt lines give items that are otherwise indistinguishable."""
 import json
 import os
 import pickle
@@ -124,11 +127,44 @@ def run_session(rs, rd, sav, load, quit_after=None, cap=4000, quit_in_next=None,
             res["restored"] = r
             return r
         pcfg.restore_omen = restore_omen
+        # Which base-structure LINE a queue item descends from (the model's ghost tag, Next.v itag).  The
+        # implementation's dictionaries do not carry it; two identical grammar.txt lines give items that are
+        # equal as (pt, base_prob, prob).  It is followed here by object identity through the three places
+        # that create queue items (instance attributes, no repository change): initalize_base_structures
+        # (line index), find_children (children inherit), restore_prob_order (restored items inherit from
+        # the base item walked).  Without it the model's order-following queue cannot tell the copies apart.
+        tags, keep = {}, []
+        real_init, real_fc, real_rpo = pcfg.initalize_base_structures, pcfg.find_children, pcfg.restore_prob_order
+
+        def init_bs():
+            items = real_init()
+            for i, it in enumerate(items):
+                tags[id(it)] = i
+                keep.append(it)
+            return items
+
+        def find_children(pt_item):
+            ch = list(real_fc(pt_item))
+            for c in ch:
+                tags[id(c)] = tags.get(id(pt_item))
+                keep.append(c)
+            return ch
+
+        def restore_prob_order(pt_item, max_prob, min_prob, save_function):
+            t = tags.get(id(pt_item))
+
+            def save(it):
+                tags[id(it)] = t
+                keep.append(it)
+                return save_function(it)
+            return real_rpo(pt_item, max_prob, min_prob, save)
+        pcfg.initalize_base_structures, pcfg.find_children, pcfg.restore_prob_order = init_bs, find_children, restore_prob_order
 
         class RecQueue(PcfgQueue):
             def next(self):
                 it = PcfgQueue.next(self)
-                res["pops"].append(None if it is None else ([tuple(x) for x in it["pt"]], it["prob"], it["base_prob"]))
+                res["pops"].append(None if it is None else ([tuple(x) for x in it["pt"]], it["prob"], it["base_prob"],
+                                                            tags.get(id(it))))
                 return it
         real_next = MarkovCracker.next_guess
 
@@ -518,12 +554,14 @@ MS_HEADER = ["From Coq Require Import List Bool NArith ZArith Floats.",
 
 
 def _obs(vm, q):
+    """(base-structure line, (pt, base_prob, prob)); a line that could not be followed is written as 9999
+    (no item of the model has that tag, so the case fails rather than passing by accident)"""
     import impl_next
-    return impl_next.coq_obs(vm, {"pt": q[0], "prob": q[1], "base_prob": q[2]})
+    return "(%d%%nat, %s)" % (9999 if q[3] is None else q[3], impl_next.coq_obs(vm, {"pt": q[0], "prob": q[1], "base_prob": q[2]}))
 
 
 def _obs_list(vm, qs):
-    return common.clist([_obs(vm, q) for q in qs]) if qs else "(@nil obs)"
+    return common.clist([_obs(vm, q) for q in qs]) if qs else "(@nil tobs)"
 
 
 def _strs(l):
@@ -552,7 +590,7 @@ def session_shard(ms):
     src.append("Definition ustream : list str := %s." % _strs(ustream))
     src.append("Open Scope float_scope.")
     src.append("Definition rs0 : ruleset F64 := %s." % impl_next.coq_rs(M["table"], M["bases"]))
-    src.append("Definition uorder : list obs := %s." % _obs_list(vm, uorder))
+    src.append("Definition uorder : list tobs := %s." % _obs_list(vm, uorder))
     names = {}
     defs = []
 
@@ -564,7 +602,7 @@ def session_shard(ms):
     rows = []
     for c in ms["cases"]:
         o1 = c["order1"]
-        order1 = "(firstn %d%%nat uorder)" % len(o1) if o1 == uorder[:len(o1)] else named("o1", "list obs", _obs_list(vm, o1))
+        order1 = "(firstn %d%%nat uorder)" % len(o1) if o1 == uorder[:len(o1)] else named("o1", "list tobs", _obs_list(vm, o1))
         s1 = c["out1"]
         out1 = "(firstn %d%%nat ustream)" % len(s1) if s1 == ustream[:len(s1)] else named("s1", "list str", _strs(s1))
         if c["file"] is None:
@@ -572,7 +610,7 @@ def session_shard(ms):
         else:
             mp, num, st = c["file"]
             f = "(Some ((%s)%%float, %d%%nat, %s))" % (common.cfloat(mp), num, coq_state(st))
-        order2 = named("o2", "list obs", _obs_list(vm, c["order2"]))
+        order2 = named("o2", "list tobs", _obs_list(vm, c["order2"]))
         rest, tail = c["out2"][:c["rest"]], c["out2"][c["rest"]:]
         if rest == ustream[c["cut"] + 1:c["b"]]:
             rest_e = "(firstn %d%%nat (skipn %d%%nat ustream))" % (len(rest), c["cut"] + 1)
